@@ -52,3 +52,5 @@ func VDialOnConn(cfg *ClientConfig, conn net.Conn) *Client {
 }
 
 func VState(c *Client) util.ClientState { return c.state.Get() }
+
+func VCfg(c *Client) *ClientConfig { return c.cfg }
